@@ -60,7 +60,8 @@ fn source_geometry(d: &Data) -> Value {
                    "trig": {"g": cs(g), "a": cs(sp.map_or(0.0, |s| s.angle_with_building_north)), "w": cs(w.angle_with_space_north), "t": cs(w.tilt)}})
         })
         .collect();
-    let windows: Vec<Value> = d.windows.iter().map(|w| json!({"name": w.name, "wall": w.wall, "x": f(w.x), "y": f(w.y), "w": f(w.width), "h": f(w.height), "setback": f(w.setback)})).collect();
+    let windows: Vec<Value> = d.windows.iter().map(|w| json!({"name": w.name, "wall": w.wall, "x": f(w.x), "y": f(w.y), "w": f(w.width), "h": f(w.height), "setback": f(w.setback),
+        "overhang": w.overhang.as_ref().map(|o| json!({"a": f(o.a), "b": f(o.b), "depth": f(o.depth), "width": f(o.width), "angle": f(o.angle), "trig": cs(o.angle)}))})).collect();
     let shades: Vec<Value> = d
         .shadings
         .iter()
